@@ -108,6 +108,23 @@ theorem C18_read_after_local_fin {ff : Bool} (x : Sys α) (c : α) (b : List α)
 example : ∃ x : Sys Nat, Reachable false x ∧ x.s.localFin = true ∧ x.s.state = .hcl :=
   ⟨_, run_reachable (x := init true []) [.lCloseWrite] (Reachable.init _ _) rfl, rfl, rfl⟩
 
+
+/-- **Race outcomes** (what the `race` stress op of the engine checks on the real code): a FIN frame
+    handled concurrently with a local `CloseWrite` (resp. `Close`), under EVERY placement of the local
+    call among the handler's sub-steps, ends in CLOSED with writes refused. -/
+theorem C18_race_serializable :
+    (∀ k, k ≤ 4 →
+      ((run false (init true [Frame.data true (none : Option Nat)])
+          ((([.hNext, .hStep, .hStep, .hStep] : List Label).take k) ++ [.lCloseWrite] ++
+            (([.hNext, .hStep, .hStep, .hStep] : List Label).drop k))).map
+        (fun x => (x.s.state, x.s.canWrite, x.s.localFin, x.s.remoteFin))) = some (St.closed, false, true, true)) ∧
+    (∀ k, k ≤ 4 →
+      ((run false (init true [Frame.data true (none : Option Nat)])
+          ((([.hNext, .hStep, .hStep, .hStep] : List Label).take k) ++ [.lClose, .closeEnd] ++
+            (([.hNext, .hStep, .hStep, .hStep] : List Label).drop k))).map
+        (fun x => (x.s.state, x.s.canWrite, x.s.closed, x.s.remoteFin))) = some (St.closed, false, true, true)) := by
+  constructor <;> (intro k hk; (have : k = 0 ∨ k = 1 ∨ k = 2 ∨ k = 3 ∨ k = 4 := by omega); rcases this with rfl | rfl | rfl | rfl | rfl <;> rfl)
+
 /-- **Only documented state edges.**  Every atomic step of every thread moves `state` along an edge
     of Architecture.md section 7.1 (or leaves it unchanged). -/
 theorem C18_transitions {ff : Bool} {x y : Sys α} (l : Label) (h : step ff x l = some y) :
